@@ -363,4 +363,9 @@ def main_wrapper(fn, pid, tier, seed):
             # (typically a binding self-test that cannot run on code that already misbehaves)
             ctx.note("the run ended with a tool error after violations had been recorded: %s" % str(e)[:200])
             rc = ctx.finish() or 2
+    except Exception as e:          # a bug in the machinery is a tool error, never a verdict
+        import traceback
+        traceback.print_exc()
+        log("TOOL-ERROR %s: internal error in the check: %r" % (pid, e))
+        rc = 2
     sys.exit(rc)
